@@ -233,8 +233,17 @@ def make_decl(r, label, values, order, spelling, naming, rnd, vis='pub'):
         renames[vals[0]] = names[vals[1]]
         renames[vals[1]] = 'was_' + names[vals[1]]
     variants = []
-    for v in decl_order:
-        variants.append({'ident': names[v], 'lit': lits[v], 'value': v, 'rename': renames.get(v)})
+    for k, v in enumerate(decl_order):
+        x = {'ident': names[v], 'lit': lits[v], 'value': v, 'rename': renames.get(v)}
+        if naming in ('hostile', 'swap') and n <= 50:
+            # foreign attributes and doc comments before / after / on both sides of the rename attribute
+            if k % 3 == 0:
+                x['attrs'] = ['/// doc before', '#[allow(dead_code)]']
+            elif k % 3 == 1:
+                x['attrs_after'] = ['#[doc = "after"]', '#[allow(unused, dead_code)]']
+            else:
+                x['attrs'] = ['#[doc(alias = "q")]']; x['attrs_after'] = ['/** block doc after */']
+        variants.append(x)
     # sanity: implicit values follow the compiler's rule
     last = -1
     for x in variants:
@@ -349,6 +358,8 @@ def render_enum(decl, cfg, name='E', derives='Clone, Copy, EnumTools', extra_att
             lines.append('    ' + a)
         if v['rename'] is not None:
             lines.append('    #[enum_tools(rename = %s)]' % rust_str(v['rename']))
+        for a in v.get('attrs_after', []):
+            lines.append('    ' + a)
         if v['lit'] is None:
             lines.append('    %s,' % v['ident'])
         else:
